@@ -172,6 +172,12 @@ func ruleFieldFlow(c *Ctx, r *Report, s ffSpec) {
 			}
 		}
 		if !anyCall {
+			// a flow whose calls are enumerated is a copy: nothing is spliced onto the value on the way
+			for _, op := range []string{"+", "-", "*", "/", "%"} {
+				if at.Ops[op] {
+					viol = fmt.Sprintf("%s: %s.%s is computed with `%s` from its source (atoms: %s): the value is no longer the source as written", w.pos(sk.Pos), ownerName(s.Owner), s.Field, op, at)
+				}
+			}
 			for cl := range at.Calls {
 				base := strings.TrimPrefix(cl, "inlined:")
 				if !allowedCall[base] && !strings.HasPrefix(cl, "conv:") {
@@ -466,4 +472,63 @@ func ruleTrueOnlyUnder(c *Ctx, r *Report, clause, fnKey, key string, under func(
 		viol = fnKey + " never answers true"
 	}
 	r.add(clause, "guardedby", fnKey+":"+key, fnKey+" answers true only when "+desc, []string{fnKey}, sites, viol)
+}
+
+// ruleWhoReads: a struct field is read (a FieldAddr that is not only stored to, or a Field)
+// only in functions of the allowed packages: what other code computes cannot depend on it.
+func ruleWhoReads(c *Ctx, r *Report, clause string, owner *types.Named, field string, allowedPkgs []string, min int, desc string) {
+	w := c.W
+	key := ownerName(owner) + "." + field
+	fld := fieldOf(owner, field)
+	if owner == nil || fld == nil {
+		r.undecided(clause, "whoreads", key, desc, "field not found")
+		return
+	}
+	var sites []string
+	viol := ""
+	n := 0
+	for _, fn := range w.SSAFuncs {
+		for _, b := range fn.Blocks {
+			for _, ins := range b.Instrs {
+				read := false
+				switch x := ins.(type) {
+				case *ssa.FieldAddr:
+					if structFieldVar(x.X.Type(), x.Field) != fld {
+						continue
+					}
+					if refs := x.Referrers(); refs != nil {
+						for _, rf := range *refs {
+							if st, ok := rf.(*ssa.Store); ok && st.Addr == ssa.Value(x) {
+								continue
+							}
+							read = true
+						}
+					}
+				case *ssa.Field:
+					read = structFieldVar(x.X.Type(), x.Field) == fld
+				}
+				if !read {
+					continue
+				}
+				n++
+				host := fnShort(fn)
+				rel := strings.TrimLeft(host, "(*")
+				ok := false
+				for _, p := range allowedPkgs {
+					if strings.HasPrefix(rel, p+".") || strings.HasPrefix(rel, p+"/") {
+						ok = true
+					}
+				}
+				p := w.pos(ins.Pos())
+				sites = append(sites, p)
+				if !ok {
+					viol = fmt.Sprintf("%s: %s is read in %s, outside %v: %s", p, key, host, allowedPkgs, desc)
+				}
+			}
+		}
+	}
+	if n < min {
+		viol = fmt.Sprintf("expected >= %d reads of %s, found %d (rule would pass vacuously)", min, key, n)
+	}
+	r.add(clause, "whoreads", key, desc, append([]string{key}, allowedPkgs...), sites, viol)
 }
